@@ -199,10 +199,10 @@ Proof.
 Qed.
 
 Theorem reset_refines w :
-  rwi w -> w_listener w = None ->
+  rwi w ->
   R (world_reset w) (mkAS [] [] [] (w_reg w)) /\ cache_ok (world_reset w) /\ rwi (world_reset w).
 Proof.
-  intros [G T C] Hlis. unfold world_reset.
+  intros [G T C]. unfold world_reset.
   set (w1 := w <| w_index := [None] |> <| w_tbits := [false] |> <| w_pool := pool_init |>
                <| w_locks := locks_init (w_tb w) |> <| w_res := replicate (w_tb w) None |>).
   assert (I1 : rwi w1).
@@ -225,7 +225,6 @@ Proof.
     + apply I2.
   - by rewrite S4.
   - unfold is_locked. by rewrite S6.
-  - by rewrite Hl2.
   - intros e He. by apply elem_of_nil in He.
 Qed.
 
@@ -240,8 +239,8 @@ Corollary reset_then_history w A ops :
 Proof.
   intros HR C w0 A0 Hp.
   assert (I : rwi w).
-  { pose proof HR as [[[S G] _ _] _ _ _ _]. split; [done| |done]. intros tid t Ht. by apply (so_table _ _ S tid). }
-  destruct (reset_refines w I (r_nolistener _ _ HR)) as (HR0 & C0 & _).
+  { pose proof HR as [[[S G] _ _] _ _ _]. split; [done| |done]. intros tid t Ht. by apply (so_table _ _ S tid). }
+  destruct (reset_refines w I) as (HR0 & C0 & _).
   unfold A0 in *. rewrite (r_reg _ _ HR) in *. by apply cache_history.
 Qed.
 
@@ -259,8 +258,8 @@ Proof.
   intros HR C Hpre. destruct o; try (by apply cache_step).
   simpl. rewrite (r_unlocked _ _ HR). simpl.
   assert (I : rwi w).
-  { pose proof HR as [[[S G] _ _] _ _ _ _]. split; [done| |done]. intros tid t Ht. by apply (so_table _ _ S tid). }
-  destruct (reset_refines w I (r_nolistener _ _ HR)) as (HR0 & C0 & _). rewrite (r_reg _ _ HR). done.
+  { pose proof HR as [[[S G] _ _] _ _ _]. split; [done| |done]. intros tid t Ht. by apply (so_table _ _ S tid). }
+  destruct (reset_refines w I) as (HR0 & C0 & _). rewrite (r_reg _ _ HR). done.
 Qed.
 
 Fixpoint pre_run3 (w : world) (A : astate) (ops : list op) : Prop :=
